@@ -75,7 +75,29 @@ fn boundaries_of(hdr: usize, table: &[SymRecord]) -> Vec<usize> {
     table.iter().map(|r| hdr + r.consumed as usize).collect()
 }
 
+/// Inputs as below; a quarter of them additionally carry a memory limit (a decode option like
+/// the others: the two decoders must agree under it, whether it is generous, just enough,
+/// between the output size and the announced dictionary size, or too small).
 pub fn gen_input(rng: &mut Rng, tier: Tier, max_len: usize) -> Option<Input> {
+    let mut inp = gen_input_plain(rng, tier, max_len)?;
+    if rng.chance(1, 4) {
+        let m = match rng.below(8) {
+            0 => 0,
+            1 => rng.range(1, 300) as usize,
+            2 => *rng.pick(&[4095usize, 4096, 4097]),
+            3 => rng.range(300, 70_000) as usize,
+            4 => 1 << 20,
+            5 => (1 << 23) - 1,
+            6 => usize::MAX,
+            _ => rng.range(1, 5000) as usize,
+        };
+        inp.options.memlimit = Some(m);
+        inp.desc = format!("{} | memlimit {}", inp.desc, m);
+    }
+    Some(inp)
+}
+
+fn gen_input_plain(rng: &mut Rng, tier: Tier, max_len: usize) -> Option<Input> {
     let kind = rng.weighted(&[40, 12, 8, 6, 6, 10, 4, 4]);
     match kind {
         0 | 1 | 7 => {
